@@ -8,6 +8,8 @@ From FF Require Import Lib.Word Gen.Consts_device_acpi_aml Gen.Consts_aml_tree A
 Import ListNotations.
 Local Open Scope N_scope.
 
+Definition specm (md : bool) {A} (P : Prop) (m : M A) (s : pstate) (g : ghost) (Q : A -> pstate -> ghost -> Prop) : Prop :=
+  wp P m s (fun a s' => exists g', FIm md s' g' /\ Ext s g s' g' /\ Q a s' g').
 Definition spec {A} (P : Prop) (m : M A) (s : pstate) (g : ghost) (Q : A -> pstate -> ghost -> Prop) : Prop :=
   wp P m s (fun a s' => exists g', FI s' g' /\ Ext s g s' g' /\ Q a s' g').
 
@@ -64,8 +66,8 @@ Lemma nk_info op : newok op -> exists i, opcodeTableIndex op true = Some i /\ op
 Proof. intros (_ & _ & H). exact H. Qed.
 
 (** ---- parseByteList ---- *)
-Lemma parseByteList_spec P obj dataLen s g : FI s g -> glive g obj ->
-  wp P (parseByteList obj dataLen) s (fun res s' => FI s' g /\ rstep s s').
+Lemma parseByteList_spec {md} P obj dataLen s g : FIm md s g -> glive g obj ->
+  wp P (parseByteList obj dataLen) s (fun res s' => FIm md s' g /\ rstep s s').
 Proof.
   intros H Hl. unfold parseByteList.
   apply wp_bind, wp_get.
@@ -115,15 +117,15 @@ Definition simple_str (obj tbl op : N) (f : reader -> outcome (slice * bool * re
   wrf obj (set_infoIndex idx) ;;;
   ret (Some obj, pres_of_bool ok).
 
-Lemma simple_num_spec P obj op bytes s g : FI s g -> glive g obj -> newok op -> 1 <= bytes ->
+Lemma simple_num_spec {md} P obj op bytes s g : FIm md s g -> glive g obj -> newok op -> 1 <= bytes ->
   wp P (simple_num obj op bytes) s (fun '(a, res) s' =>
-     FI s' g /\ rstep s s' /\ a = Some obj /\ (res = ROk -> r_offset (p_r s) < r_offset (p_r s')) /\
+     FIm md s' g /\ rstep s s' /\ a = Some obj /\ (res = ROk -> r_offset (p_r s) < r_offset (p_r s')) /\
      exists po v, tget (p_tree s') obj = Some po /\ o_value po = Some (VNum v)).
 Proof.
   intros H Hl Hnk Hb. unfold simple_num. pose proof Hnk as (Hnf & _).
   wwrf H Hl. intros o1 Hg1 Hlo1 H1.
   apply wp_bind. apply wp_num; [apply (fi_rok _ _ H1)|]. intros v ok r1 Hadv Hok.
-  assert (H2 : FI (with_r (with_tree s (tset (p_tree s) obj (set_opcode op))) r1) g).
+  assert (H2 : FIm md (with_r (with_tree s (tset (p_tree s) obj (set_opcode op))) r1) g).
   { apply FI_with_r; [exact H1|]. eapply rok_adv; [apply (fi_rok _ _ H1)|exact Hadv]. }
   wwrf H2 Hl. intros o2 Hg2 Hlo2 H3.
   destruct (nk_info _ Hnk) as (idx & Hidx & Hinf).
@@ -140,17 +142,17 @@ Proof.
   inversion Hg3; subst o3. do 2 eexists. split; [reflexivity|]. reflexivity.
 Qed.
 
-Lemma simple_str_spec P obj tbl op f s g : FI s g -> glive g obj -> newok op ->
+Lemma simple_str_spec {md} P obj tbl op f s g : FIm md s g -> glive g obj -> newok op ->
   (forall s0 (Q : slice * bool -> pstate -> Prop), rok (p_r s0) ->
      (forall v ok r1, adv (p_r s0) r1 -> (ok = true -> r_offset (p_r s0) < r_offset r1) -> Q (v, ok) (with_r s0 r1)) ->
      wp P (lex f) s0 Q) ->
   wp P (simple_str obj tbl op f) s (fun '(a, res) s' =>
-     FI s' g /\ rstep s s' /\ a = Some obj /\ (res = ROk -> r_offset (p_r s) < r_offset (p_r s'))).
+     FIm md s' g /\ rstep s s' /\ a = Some obj /\ (res = ROk -> r_offset (p_r s) < r_offset (p_r s'))).
 Proof.
   intros H Hl Hnk Hf. unfold simple_str. pose proof Hnk as (Hnf & _).
   wwrf H Hl. intros o1 Hg1 Hlo1 H1.
   apply wp_bind. apply Hf; [apply (fi_rok _ _ H1)|]. intros v ok r1 Hadv Hok.
-  assert (H2 : FI (with_r (with_tree s (tset (p_tree s) obj (set_opcode op))) r1) g).
+  assert (H2 : FIm md (with_r (with_tree s (tset (p_tree s) obj (set_opcode op))) r1) g).
   { apply FI_with_r; [exact H1|]. eapply rok_adv; [apply (fi_rok _ _ H1)|exact Hadv]. }
   wwrf H2 Hl. intros o2 Hg2 Hlo2 H3.
   destruct (nk_info _ Hnk) as (idx & Hidx & Hinf).
@@ -163,8 +165,8 @@ Proof.
   intros Hr. destruct ok; [|discriminate]. cbn in Hok |- *. specialize (Hok eq_refl). lia.
 Qed.
 
-Lemma parseSimpleArg_spec P argTy s g : FI s g -> lp s + 1 < InvalidIndex ->
-  spec P (parseSimpleArg argTy) s g (fun '(a, res) s' g' =>
+Lemma parseSimpleArg_spec {md} P argTy s g : FIm md s g -> lp s + 1 < InvalidIndex ->
+  specm md P (parseSimpleArg argTy) s g (fun '(a, res) s' g' =>
      lp s' <= lp s + 1 /\ p_scopeStack s' = p_scopeStack s /\
      (res = ROk -> r_offset (p_r s) < r_offset (p_r s')) /\
      match a with
@@ -174,7 +176,7 @@ Lemma parseSimpleArg_spec P argTy s g : FI s g -> lp s + 1 < InvalidIndex ->
      | None => res = RFailed /\ argTy <> aml_pArgTypeByteData
      end).
 Proof.
-  intros H Hroom. unfold spec, parseSimpleArg.
+  intros H Hroom. unfold specm, parseSimpleArg.
   apply wp_bind. eapply new_step; [exact H|apply (newokb_sound 0 eq_refl)|exact Hroom|].
   intros p t1 g1 po H1 Hext Hfresh Hlive Hroot Hkids Hpo Hop Hval Hidx Hlen1 Hlen2.
   apply wp_bind, wp_get.
@@ -186,9 +188,9 @@ Proof.
   { unfold s2, lp. pcbn. rewrite tset_len. repeat split; auto. lia. }
   destruct S02 as (L02 & O02 & St02 & Lp02 & Pk02).
   assert (Fin : forall (ares : option N * pres) s',
-     (let '(a, res) := ares in FI s' g1 /\ rstep s2 s' /\ a = Some p /\ (res = ROk -> r_offset (p_r s2) < r_offset (p_r s')) /\
+     (let '(a, res) := ares in FIm md s' g1 /\ rstep s2 s' /\ a = Some p /\ (res = ROk -> r_offset (p_r s2) < r_offset (p_r s')) /\
          (argTy = aml_pArgTypeByteData -> exists po v, tget (p_tree s') p = Some po /\ o_value po = Some (VNum v))) ->
-     exists g', FI s' g' /\ Ext s g s' g' /\
+     exists g', FIm md s' g' /\ Ext s g s' g' /\
        (let '(a, res) := ares in
         lp s' <= lp s + 1 /\ p_scopeStack s' = p_scopeStack s /\
         (res = ROk -> r_offset (p_r s) < r_offset (p_r s')) /\
@@ -286,14 +288,14 @@ Proof.
 Qed.
 
 
-Lemma FI_adv s g r1 : FI s g -> adv (p_r s) r1 -> FI (with_r s r1) g.
+Lemma FI_adv {md} s g r1 : FIm md s g -> adv (p_r s) r1 -> FIm md (with_r s r1) g.
 Proof. intros H A. apply FI_with_r; auto. eapply rok_adv; eauto. apply (fi_rok _ _ H). Qed.
 
 Lemma at_rok s s' k c : at_ s s' k c -> r_offset (p_r s') <= r_len (p_r s').
 Proof. intros (_ & _ & A & _). exact A. Qed.
 
 (** ---- parseFieldElements ---- *)
-Lemma fieldByte_spec P s g : FI s g -> wp P fieldByte s (fun a s' => FI s' g /\ at_ s s' 0 0).
+Lemma fieldByte_spec {md} P s g : FIm md s g -> wp P fieldByte s (fun a s' => FIm md s' g /\ at_ s s' 0 0).
 Proof.
   intros H. unfold fieldByte. apply wp_bind. apply wp_num; [apply (fi_rok _ _ H)|]. intros v ok r1 Hadv Hok.
   apply wp_ret. split; [apply FI_adv; auto|].
@@ -301,13 +303,13 @@ Proof.
   destruct Hadv as (_ & L & _). lia.
 Qed.
 
-Lemma readName_go_spec P field cnt : forall i s g, FI s g -> glive g field ->
-  wp P (readName_go cnt i field) s (fun ok s' => FI s' g /\ at_ s s' 0 0).
+Lemma readName_go_spec {md} P field cnt : forall i s g, FIm md s g -> glive g field ->
+  wp P (readName_go cnt i field) s (fun ok s' => FIm md s' g /\ at_ s s' 0 0).
 Proof.
   induction cnt as [|cnt IH]; intros i s g H Hl; cbn [readName_go].
   - apply wp_ret. split; auto. apply at_refl. apply (fi_rok _ _ H).
   - apply wp_bind. apply wp_readByte; [apply (fi_rok _ _ H)|]. intros b r1 Hadv Hn Hs.
-    assert (H1 : FI (with_r s r1) g) by (apply FI_adv; auto).
+    assert (H1 : FIm md (with_r s r1) g) by (apply FI_adv; auto).
     assert (A1 : at_ s (with_r s r1) 0 0).
     { replace 0 with (0 + 0) at 1 by reflexivity. apply at_adv; [apply at_refl, (fi_rok _ _ H)|exact Hadv|].
       destruct Hadv as (_ & L & _). lia. }
@@ -332,26 +334,26 @@ Definition dl_block (origOffset pkgLen : N) : M (option N) :=
     else ret (Some 0)
   else ret (Some 0).
 
-Lemma dl_block_spec P origOffset pkgLen s g : FI s g ->
-  wp P (dl_block origOffset pkgLen) s (fun a s' => FI s' g /\ at_ s s' 0 0).
+Lemma dl_block_spec {md} P origOffset pkgLen s g : FIm md s g ->
+  wp P (dl_block origOffset pkgLen) s (fun a s' => FIm md s' g /\ at_ s s' 0 0).
 Proof.
   intros H. unfold dl_block. pose proof (fi_rok _ _ H) as Hrok.
   destruct (0 <? pkgLen); [|apply wp_ret; split; auto; apply at_refl; auto].
   apply wp_bind. apply wp_setPkgEnd.
   set (s1 := with_r s (fst (setPkgEnd (p_r s) (w32 (origOffset + pkgLen))))).
   assert (Hrok1 : rok (p_r s1)) by (apply rok_setPkgEnd; auto).
-  assert (H1 : FI s1 g) by (apply FI_with_r; auto).
+  assert (H1 : FIm md s1 g) by (apply FI_with_r; auto).
   destruct (setPkgEnd_off (p_r s) (w32 (origOffset + pkgLen))) as (Eo & El).
   assert (A1 : at_ s s1 0 0).
   { eapply at_r; [apply at_refl; auto|exact El|pcbn; lia|]. pcbn. destruct Hrok as (_ & _ & O). pcbn_in Eo. lia. }
   destruct (snd (setPkgEnd (p_r s) (w32 (origOffset + pkgLen)))); cbn [negb]; [|apply wp_ret; split; auto].
   apply wp_bind. apply wp_nextop; auto. intros op ok r2 Hadv2 _ _.
-  assert (H2 : FI (with_r s1 r2) g) by (apply FI_adv; auto).
+  assert (H2 : FIm md (with_r s1 r2) g) by (apply FI_adv; auto).
   assert (A2 : at_ s (with_r s1 r2) 0 0).
   { replace 0 with (0 + 0) at 1 by reflexivity. apply at_adv; [exact A1|exact Hadv2|]. destruct Hadv2 as (_ & L & _). lia. }
   destruct ok; cbn [negb]; [|apply wp_ret; split; auto].
   assert (Fin : forall k, wp P (mlet '(v, ok4) <~ lex (parseNumConstant k) ;; ret (if ok4 then Some v else None)) (with_r s1 r2)
-                            (fun _ s' => FI s' g /\ at_ s s' 0 0)).
+                            (fun _ s' => FIm md s' g /\ at_ s s' 0 0)).
   { intros k. apply wp_bind. apply wp_num; [apply (fi_rok _ _ H2)|]. intros v ok r3 Hadv3 _.
     apply wp_ret. split; [apply FI_adv; auto|].
     replace 0 with (0 + 0) at 1 by reflexivity. apply at_adv; [exact A2|exact Hadv3|]. destruct Hadv3 as (_ & L & _). lia. }
@@ -362,22 +364,22 @@ Proof.
 Qed.
 
 Section Field.
-Variables (curObj par : N).
+Variables (md : bool) (curObj par : N).
 
 Definition FPre (s : pstate) (g : ghost) (f : fstate) : Prop :=
-  FI s g /\ In curObj (kids g par) /\ In (f_appendAfter f) (kids g par) /\ Phi s + 4 <= InvalidIndex.
+  FIm md s g /\ In curObj (kids g par) /\ In (f_appendAfter f) (kids g par) /\ Phi s + 4 <= InvalidIndex.
 Definition FPost (s : pstate) (res : pres) (s' : pstate) : Prop :=
   Phi s' <= Phi s + 2 /\ (res = RShort -> Phi s' <= Phi s) /\ res <> ROk /\
   p_scopeStack s' = p_scopeStack s /\ p_pkgEndStack s' = p_pkgEndStack s.
 Definition FSpec (fuel : nat) : Prop := forall f s g, FPre s g f ->
-  spec (N.of_nat fuel <= rem s) (fieldElements_go fuel curObj f) s g (fun res s' _ => FPost s res s').
+  specm md (N.of_nat fuel <= rem s) (fieldElements_go fuel curObj f) s g (fun res s' _ => FPost s res s').
 
 (** the recursive call, after at least one consumed byte and at most four created objects *)
 Lemma frec fuel (IH : FSpec fuel) f1 s g s1 g1 c :
-  FI s1 g1 -> at_ s s1 1 c -> c <= 4 -> gext g g1 -> In curObj (kids g1 par) -> In (f_appendAfter f1) (kids g1 par) ->
+  FIm md s1 g1 -> at_ s s1 1 c -> c <= 4 -> gext g g1 -> In curObj (kids g1 par) -> In (f_appendAfter f1) (kids g1 par) ->
   Phi s + 4 <= InvalidIndex ->
   wp (N.of_nat (S fuel) <= rem s) (fieldElements_go fuel curObj f1) s1
-     (fun res s' => exists g', FI s' g' /\ Ext s g s' g' /\ FPost s res s').
+     (fun res s' => exists g', FIm md s' g' /\ Ext s g s' g' /\ FPost s res s').
 Proof.
   intros H1 A1 Hc Hext Hcur Haft Hroom. destruct (at_Phi _ _ _ _ A1) as (P1 & P2).
   eapply wp_weaken; [apply (IH f1 s1 g1)|..].
@@ -391,8 +393,8 @@ Qed.
 
 (** a failing return *)
 Lemma ffail (P : Prop) s g s1 g1 k c (res : pres) :
-  FI s1 g1 -> at_ s s1 k c -> c <= 2 -> gext g g1 -> res = RFailed ->
-  wp P (ret res) s1 (fun res s' => exists g', FI s' g' /\ Ext s g s' g' /\ FPost s res s').
+  FIm md s1 g1 -> at_ s s1 k c -> c <= 2 -> gext g g1 -> res = RFailed ->
+  wp P (ret res) s1 (fun res s' => exists g', FIm md s' g' /\ Ext s g s' g' /\ FPost s res s').
 Proof.
   intros H1 A1 Hc Hext ->. destruct (at_Phi _ _ _ _ A1) as (P1 & P2).
   apply wp_ret. exists g1. split; auto. split; [eapply at_Ext; eauto|]. split; [lia|]. split; [discriminate|].
@@ -401,7 +403,7 @@ Qed.
 
 Lemma fieldElements_spec : forall fuel, FSpec fuel.
 Proof.
-  induction fuel as [|fuel IH]; intros f s g (H & Hcur & Haft & Hroom); unfold spec; cbn [fieldElements_go].
+  induction fuel as [|fuel IH]; intros f s g (H & Hcur & Haft & Hroom); unfold specm; cbn [fieldElements_go].
   { apply wp_outOfFuel. change (0 <= rem s). apply N.le_0_l. }
   pose proof (fi_rok _ _ H) as Hrok.
   pose proof (R_gwf _ _ (fi_R _ _ H)) as Hwf.
@@ -414,13 +416,13 @@ Proof.
   2:{ exfalso. destruct (Hn eq_refl) as (_ & Hge). unfold eof in Ee. apply N.leb_gt in Ee. lia. }
   destruct (Hs _ eq_refl) as (Ho1 & Hb & Hlt). clear Hn Hs.
   set (s1 := with_r s r1).
-  assert (H1 : FI s1 g) by (apply FI_adv; auto).
+  assert (H1 : FIm md s1 g) by (apply FI_adv; auto).
   assert (A1 : at_ s s1 1 0).
   { replace 1 with (0 + 1) by reflexivity. apply at_adv; [apply at_refl; auto|exact Hadv|lia]. }
   destruct (next =? 0) eqn:E0.
   { (* reserved field *)
     apply wp_bind. apply wp_pkglen; [apply (fi_rok _ _ H1)|]. intros v ok r2 Hadv2 Hok Hnok.
-    assert (H2 : FI (with_r s1 r2) g) by (apply FI_adv; auto).
+    assert (H2 : FIm md (with_r s1 r2) g) by (apply FI_adv; auto).
     assert (A2 : at_ s (with_r s1 r2) 1 0).
     { apply at_adv0; auto. }
     destruct ok; cbn [negb].
@@ -452,7 +454,7 @@ Proof.
   destruct (next =? 2) eqn:E2.
   { (* Connection *)
     apply wp_bind. apply wp_readByte; [exact Hrok1|]. intros nx2 r2 Hadv2 Hn2 Hs2.
-    assert (H2 : FI (with_r s1 r2) g) by (apply FI_adv; auto).
+    assert (H2 : FIm md (with_r s1 r2) g) by (apply FI_adv; auto).
     destruct nx2 as [next2|].
     2:{ eapply ffail; [exact H2|apply at_adv0; eauto|lia|apply gext_refl|reflexivity]. }
     destruct (Hs2 _ eq_refl) as (Ho2 & Hb2 & Hlt2). clear Hn2 Hs2.
@@ -483,7 +485,7 @@ Proof.
     - (* Buffer *)
       apply wp_bind, wp_get. apply wp_bind, wp_get.
       apply wp_bind. apply wp_pkglen; [exact Hrok4|]. intros pkgLen ok r5 Hadv5 Hok5 Hnok5.
-      assert (H5 : FI (with_r s4 r5) g4) by (apply FI_adv; auto).
+      assert (H5 : FIm md (with_r s4 r5) g4) by (apply FI_adv; auto).
       assert (A5 : at_ s (with_r s4 r5) 2 1) by (apply at_adv0; auto).
       destruct ok; cbn [negb]; [|eapply ffail; [exact H5|exact A5|lia|exact Hext4|reflexivity]].
       destruct (Hok5 eq_refl) as (_ & Hpl).
@@ -513,7 +515,7 @@ Proof.
       set (o11 := w32 (r_offset (p_r s4) + pkgLen)).
       set (s11 := with_r s10 (setOffset (p_r s10) o11)).
       destruct (rok_setOffset (p_r s10) o11 Hrok10) as (Hrok11 & El11).
-      assert (H11 : FI s11 g7) by (apply FI_with_r; [apply FI_with_r; [exact H9|exact Hrok10]|exact Hrok11]).
+      assert (H11 : FIm md s11 g7) by (apply FI_with_r; [apply FI_with_r; [exact H9|exact Hrok10]|exact Hrok11]).
       assert (A11 : at_ s s11 2 2).
       { destruct A9 as (B1 & B2 & B3 & B4 & B5 & B6).
         assert (El : r_len (p_r s10) = r_len (p_r s)) by (unfold s10; pcbn; congruence).
@@ -541,7 +543,7 @@ Proof.
       assert (Hrok5 : rok r5).
       { destruct Hrok4 as (W & Sm & O). split; [eapply wf_same_window; [exact W|apply same_window_set_offset]|].
         split; [exact Sm|]. unfold r5. cbn [r_offset r_len set_offset_raw]. lia. }
-      assert (H5 : FI (with_r s4 r5) g4) by (apply FI_with_r; auto).
+      assert (H5 : FIm md (with_r s4 r5) g4) by (apply FI_with_r; auto).
       assert (A5 : at_ s (with_r s4 r5) 1 1).
       { eapply at_r; [exact A4|reflexivity|unfold r5; cbn [r_offset r_len set_offset_raw]; lia|destruct Hrok5 as (_ & _ & O); exact O]. }
       apply wp_bind. eapply new_step; [exact H5|apply (newokb_sound aml_pOpIntNamePath eq_refl)| |].
@@ -553,12 +555,12 @@ Proof.
       wwrf H7 Hlive7. intros o8 Hg8 Hlo8 H8.
       apply wp_bind, wp_get.
       apply wp_bind. apply wp_namestring; [apply (fi_rok _ _ H8)|]. intros v ok r9 Hadv9 Hok9.
-      match type of H8 with FI ?st _ => set (s8 := st) in * end.
+      match type of H8 with FIm md ?st _ => set (s8 := st) in * end.
       assert (A8 : at_ s s8 1 2) by (apply at_tset; exact A7).
-      assert (H9 : FI (with_r s8 r9) g7) by (apply FI_adv; auto).
+      assert (H9 : FIm md (with_r s8 r9) g7) by (apply FI_adv; auto).
       assert (A9 : at_ s (with_r s8 r9) 1 2) by (apply at_adv0; auto).
       wwrf H9 Hlive7. intros o10 Hg10 Hlo10 H10.
-      match type of H10 with FI ?st _ => set (s10 := st) in * end.
+      match type of H10 with FIm md ?st _ => set (s10 := st) in * end.
       assert (A10 : at_ s s10 1 2) by (apply at_tset; exact A9).
       destruct ok; cbn [negb]; [|eapply ffail; [exact H10|exact A10|lia|eapply gext_trans; eauto|reflexivity]].
       apply wp_bind. eapply (append_step _ conn carg s10 g7 g4);
@@ -577,7 +579,7 @@ Proof.
   assert (Hrok2 : rok r2).
   { destruct Hrok1 as (W & Sm & O). split; [eapply wf_same_window; [exact W|apply same_window_set_offset]|].
     split; [exact Sm|]. unfold r2. cbn [r_offset r_len set_offset_raw]. lia. }
-  assert (H2 : FI (with_r s1 r2) g) by (apply FI_with_r; auto).
+  assert (H2 : FIm md (with_r s1 r2) g) by (apply FI_with_r; auto).
   assert (A2 : at_ s (with_r s1 r2) 0 0).
   { eapply at_r; [exact A1|reflexivity|unfold r2; cbn [r_offset r_len set_offset_raw]; lia|destruct Hrok2 as (_ & _ & O); exact O]. }
   apply wp_bind. eapply new_step; [exact H2|apply (newokb_sound aml_pOpIntNamedField eq_refl)| |].
@@ -587,14 +589,14 @@ Proof.
   assert (A3 : at_ s s3 0 1) by (eapply at_new'; [exact A2|exact Hl3|reflexivity]).
   apply wp_bind, wp_get.
   wwrf H3 Hlive3. intros o4 Hg4 Hlo4 H4.
-  match type of H4 with FI ?st _ => set (s4 := st) in * end.
+  match type of H4 with FIm md ?st _ => set (s4 := st) in * end.
   assert (A4 : at_ s s4 0 1) by (apply at_tset; exact A3).
   apply wp_bind. eapply wp_weaken; [apply (readName_go_spec False fld (N.to_nat aml_amlNameLen) 0%nat s4 g3 H4 Hlive3)|intros []|].
   intros okn s5 (H5 & A5').
   assert (A5 : at_ s s5 0 1) by (eapply at_trans0; eauto).
   destruct okn; cbn [negb]; [|eapply ffail; [exact H5|exact A5|lia|exact Hext3|reflexivity]].
   apply wp_bind. apply wp_pkglen; [apply (fi_rok _ _ H5)|]. intros pkgLen ok r6 Hadv6 Hok6 Hnok6.
-  assert (H6 : FI (with_r s5 r6) g3) by (apply FI_adv; auto).
+  assert (H6 : FIm md (with_r s5 r6) g3) by (apply FI_adv; auto).
   destruct ok; cbn [negb]; [|eapply ffail; [exact H6|apply at_adv0; [exact A5|exact Hadv6]|lia|exact Hext3|reflexivity]].
   destruct (Hok6 eq_refl) as (Hlt6 & _).
   set (s6 := with_r s5 r6) in *.
@@ -607,7 +609,7 @@ Proof.
   destruct (FI_live_get _ _ _ H6 Hlcur3) as (co & Hco & Hlco).
   apply wp_bind. apply wp_rdf. exists co. split; [exact Hco|].
   wwrf H6 Hlive3. intros o7 Hg7 Hlo7 H7.
-  match type of H7 with FI ?st _ => set (s7 := st) in * end.
+  match type of H7 with FIm md ?st _ => set (s7 := st) in * end.
   assert (A7 : at_ s s7 1 1) by (apply at_tset; exact A6).
   destruct (R_In_kids _ _ (fi_R _ _ H7) _ _ Hcur3) as (_ & co7 & Hco7 & _ & Hpar7).
   apply wp_bind. apply wp_rdf. exists co7. split; [exact Hco7|]. rewrite Hpar7.
@@ -623,19 +625,19 @@ Qed.
 
 End Field.
 
-Lemma parseFieldElements_spec curObj par s g :
-  FI s g -> In curObj (kids g par) -> Phi s + 4 <= InvalidIndex ->
+Lemma parseFieldElements_spec {md} curObj par s g :
+  FIm md s g -> In curObj (kids g par) -> Phi s + 4 <= InvalidIndex ->
   (exists co lo v, tget (p_tree s) curObj = Some co /\ tget (p_tree s) (o_last co) = Some lo /\
                    o_opcode lo <> opFreed /\ o_value lo = Some (VNum v)) ->
-  spec False (parseFieldElements curObj) s g (fun res s' _ => FPost s res s').
+  specm md False (parseFieldElements curObj) s g (fun res s' _ => FPost s res s').
 Proof.
-  intros H Hcur Hroom (co & lo & v & Hco & Hlo & Hllo & Hv). unfold spec, parseFieldElements.
+  intros H Hcur Hroom (co & lo & v & Hco & Hlo & Hllo & Hv). unfold specm, parseFieldElements.
   apply wp_bind. apply wp_rdf. exists co. split; [exact Hco|].
   apply wp_bind. apply wp_objectAt'.
   { eapply ObjectAt_live; eauto. apply (R_bound _ _ (fi_R _ _ H)). }
   apply wp_bind. apply wp_rdo. exists lo. split; [exact Hlo|]. rewrite Hv.
   apply wp_bind, wp_get.
-  eapply wp_weaken; [apply (fieldElements_spec curObj par)| |].
+  eapply wp_weaken; [apply (fieldElements_spec md curObj par)| |].
   - split; [exact H|]. split; [exact Hcur|]. split; [exact Hcur|exact Hroom].
   - intros Hf. pose proof (fi_rok _ _ H) as ((W1 & _) & _). unfold rem in Hf. lia.
   - intros res s' HQ. exact HQ.
